@@ -40,6 +40,12 @@ ASSUMPTIONS = [
     'error events between connect and disconnect are permitted (the statement does not mention them); after the disconnect nothing carrying the socket may be dispatched',
     'events fired by the harness itself (write/close addressed to a socket) are not counted as events "for that socket"',
     'fd census compares /proc/self/fd right before the first action with the state after every connection ended and the harness closed its own descriptors',
+    'residue is charged to late events only for what appeared after the first late event of that socket was dispatched (scan taken by the observer right '
+    'before the server handles it); with several open findings a failure is attributed to one of them iff neutralising only its trigger (late events not '
+    'delivered / server writes to live sockets not delivered / freed descriptor numbers re-used) removes every failure of that mechanism and whatever remains '
+    'consists of other known mechanisms that are, in turn, removed by neutralising their triggers as well',
+    'a connection whose peer is gone while the server still waits to write to it ends only when the kernel resets it (zero-window probe timer): the harness waits '
+    'up to 3 s for that and calls the case inconclusive, not violated, if the kernel still shows no error/hang-up on the descriptor',
 ]
 REQUIRED = ['late_event_before_disconnect_was_dispatched', 'poller_Select', 'poller_Poll', 'poller_EPoll', 'family_tcp', 'family_unix', 'peer_half_close', 'peer_close', 'peer_abort',
             'peer_close_while_server_writing', 'server_buffer_filled', 'server_close_event', 'server_close_while_buffered', 'late_write', 'late_close',
